@@ -31,7 +31,8 @@ def run(tier, v):
     b = vlib.harness_build()
     d = vlib.scratch()
     trace = os.path.join(d, "profile.ndjson")
-    args = ["profile", "-out", trace]
+    many = os.path.join(d, "many.ndjson")
+    args = ["profile", "-out", trace, "-many", many, "-drains", "600" if thorough else "200"]
     if thorough:
         args += ["-lines", "1210", "-random", "1500", "-maxtokens", "30000"]
     else:
@@ -57,6 +58,28 @@ def run(tier, v):
                     "profile %s: invariant %s of TraceProfile fails (n=%d left0=%d err=%r)" % (
                         {k: row[k] for k in ("kind", "from_m", "to_m", "step", "times")}, inv, row["n"], row["left0"], row["err"]),
                     replay_obj={"invariant": inv, "line": row}, replay_name="profile_%d_%s.json" % (ln, inv))
+    # 2b. many concurrent drains of profiles with thousands of contended level hand-overs (counts and finish times)
+    tm = vlib.tlc("TraceProfileMany", "TraceProfileMany.cfg", env={"VERIF_TRACE": many}, cont=True, workers=4, timeout=1800, heap="8g")
+    if tm.error:
+        raise vlib.MachineryError("TraceProfileMany failed: %s\n%s" % (tm.kind, tm.out[-3000:]))
+    mrows = vlib.read_ndjson(many)
+    if tm.distinct != len(mrows) + 1:
+        raise vlib.MachineryError("TraceProfileMany visited %d states for %d lines" % (tm.distinct, len(mrows)))
+    seen_m = set()
+    for inv, stt in tm.all_violations:
+        ln = int(stt.get("l", "0"))
+        if ln < 1 or (inv, ln) in seen_m:
+            continue
+        seen_m.add((inv, ln))
+        row = mrows[ln - 1]
+        if inv == "OracleOK":
+            raise vlib.MachineryError("TraceProfileMany: the oracle admits no count for a level of %s" % {k: row[k] for k in ("kind", "from_m", "to_m", "step")})
+        ns = sorted({dr["n"] for dr in row["drains"]})
+        v.violation("many kind=%s inv=%s" % (row["kind"], inv),
+                    "%d concurrent drains (8 goroutines) of %s: %s fails; operation counts seen %s, finish instants per drain %s" % (
+                        len(row["drains"]), {k: row[k] for k in ("kind", "from_m", "to_m", "step", "times", "dur")}, inv, ns[:6],
+                        sorted({len(dr["fins"]) for dr in row["drains"]})),
+                    replay_obj={"invariant": inv, "many": row}, replay_name="many_%d_%s.json" % (ln, inv))
     # 3. lazy start under contention: "no operation is scheduled before the profile's start" also holds for the
     #    callers that arrive while another caller is just starting the profile (TraceLazyStart.tla, shared with C02)
     lz = os.path.join(d, "lazy.ndjson")
@@ -90,7 +113,7 @@ def run(tier, v):
         "rule": "one trace line per profile drained from the real schedule; distinct = distinct parameter tuples with >= 1 token",
         "tokens_checked": tokens,
         "lazy_start_trials": ntrials,
-        "concurrent_drains": len([r_ for r_ in rows if r_["via"] == "concurrent"]),
+        "concurrent_drains": len([r_ for r_ in rows if r_["via"] == "concurrent"]) + sum(len(r_["drains"]) for r_ in mrows),
         "trace_spec_states": tr.distinct,
         "design_tlc": "ProfileMathCheck: %d grid profiles, oracle window/count sanity + golden points" % states,
         "exhaustive": False,
@@ -104,6 +127,13 @@ def replay(path, v):
     import json
     obj = json.load(open(path))
     d = vlib.scratch()
+    if "many" in obj:
+        p = os.path.join(d, "many1.ndjson")
+        vlib.write_ndjson(p, [obj["many"]])
+        tm = vlib.tlc("TraceProfileMany", "TraceProfileMany.cfg", env={"VERIF_TRACE": p}, cont=True, workers=1)
+        for inv, _ in tm.all_violations:
+            v.violation("many kind=%s inv=%s" % (obj["many"]["kind"], inv), "recorded drains violate %s" % inv)
+        return None
     if "lazy" in obj:
         p = os.path.join(d, "lazy1.ndjson")
         vlib.write_ndjson(p, [obj["lazy"]])
